@@ -418,6 +418,7 @@ def _pbr_inv(c):
     nm = o.name.t
     i = c.x['i']
     L = n['available_resources'].val
+    c.eng.seq_facts(L)
     seq = L.seq
     ii = z3.ToInt(i)
     base = lambda x: z3.If(k0.key(nm), k0.idl(nm, x), 0)
@@ -485,3 +486,129 @@ REG.contract('Cluster.get_machine_from_id', params={'id': 'str'}, fix={'c': 'def
              ensures=lambda c: [('is-the-registered-machine', c.result.t == z3.Select(c.o.self.machine_ids.vals, c.o.id.t))],
              raises={'KeyError': dict(when=lambda c: z3.Not(z3.Select(c.o.self.machine_ids.keys, c.o.id.t)))},
              result='ref:Machine', props=['C17'])
+
+
+# ---------------------------------------------------------------------------------------------- ingest provisioning
+TASK_FIELDS = ['id', 'est', 'eft', 'ast', 'aft', 'allocated_machine_id', 'duration', 'est_duration', 'delay_flag', 'task_status',
+               'pred', 'delay', 'delay_offset', 'workflow_offset', 'graph_id', 'flops', 'task_data', 'io']
+
+
+def _ingest_task_facts(sv, t, obs):
+    H = lambda f: z3.Select(sv.heap('Task', f), t)
+    return z3.And(H('duration') == obs.duration.t, H('task_status') == TS('SCHEDULED'), H('flops') == 0, H('task_data') == 0,
+                  H('delay') == 0)
+
+
+def _git_inv(c):
+    n = c.n
+    tasks = n['tasks']
+    alloc = c.eng.alloc()
+    alloc_pre = c.x['pre']._s.ghost.get('alloc', c.eng.alloc0())
+    return [('one-task-per-index', tasks.n == z3.ToInt(c.x['i'])),
+            ('C06-ingest-tasks-last-the-observation', Q([('t', I)], lambda t: z3.Implies(tasks.count(t) > 0, z3.And(
+                t > 0, tasks.count(t) == 1, z3.Select(alloc, t), z3.Not(z3.Select(alloc_pre, t)), _ingest_task_facts(n, t, n.observation))))),
+            ('old-objects-stay-allocated', Q([('x', I)], lambda x: z3.Implies(z3.Select(alloc_pre, x), z3.Select(alloc, x))))]
+
+
+def _git_ens(c):
+    res = c.result
+    alloc_pre = c.o._s.ghost.get('alloc', c.eng.alloc0())
+    return [('one-task-per-machine', res.n == z3.If(c.o.demand.t > 0, z3.ToInt(c.o.demand.t), 0)),
+            ('C06-ingest-tasks-last-the-observation', Q([('t', I)], lambda t: z3.Implies(res.count(t) > 0, z3.And(
+                t > 0, res.count(t) == 1, z3.Not(z3.Select(alloc_pre, t)), _ingest_task_facts(c.n, t, c.o.observation)))))]
+
+
+REG.contract('Cluster._generate_ingest_tasks', params={'demand': 'int', 'observation': 'Observation'},
+             requires=lambda c: [('duration-nonneg', c.o.observation.duration.t >= 0)],
+             ensures=_git_ens, result='list:Task', modifies=['heap:Task.' + f for f in TASK_FIELDS] + ['ghost:alloc'],
+             props=['C06', 'C08', 'C01'])
+REG.loop('Cluster._generate_ingest_tasks', 0, inv=_git_inv, modifies_locals=['i', 't'],
+         modifies=['tasks', 'ghost:alloc'] + ['heap:Task.' + f for f in TASK_FIELDS], props=['C06', 'C08'])
+
+PAIR = z3.Function('pair', I, I, I)
+FST = z3.Function('fst', I, I)
+SND = z3.Function('snd', I, I)
+
+
+def _pir_inv0(c):
+    """for i, machine in enumerate(temp_ingest_resources): pairs.append((machine, tasks[i]))"""
+    n = c.n
+    vis = c.x['visited']
+    P = n['pairs']
+    tasks = n['tasks'].val
+    c.eng.seq_facts(tasks)
+    seq = tasks.seq
+    jw = z3.Int('jw')
+    return [('one-pair-per-visited-machine', P.n == vis.n),
+            ('pairs-well-formed', Q([('p', I)], lambda p: z3.Implies(P.count(p) > 0, z3.And(
+                P.count(p) == 1, z3.Select(vis.cnt, FST(p)) >= 1,
+                z3.Exists([jw], z3.And(0 <= jw, jw < vis.n, SND(p) == AT(seq, jw))))))),
+            ('pairs-use-distinct-machines-and-tasks', Q([('p', I), ('q', I)], lambda p, q: z3.Implies(
+                z3.And(P.count(p) > 0, P.count(q) > 0, p != q), z3.And(FST(p) != FST(q), SND(p) != SND(q)))))]
+
+
+def _fst_in(bagcnt, m):
+    pw = z3.Int('pw')
+    return z3.Exists([pw], z3.And(z3.Select(bagcnt, pw) > 0, FST(pw) == m))
+
+
+def _pir_inv2(c):
+    """for pair in pairs: ingest.append(machine); available.remove(machine); spawn allocate_task_to_cluster(ingest=True)"""
+    n, o = c.n, c.x['pre']
+    k0, k1 = CV(o.self), CV(n.self)
+    vis = c.x['visited']
+    d = lambda m: z3.If(_fst_in(vis.cnt, m), 1, 0)
+    p0c, p0n = o.pending('pend_ingest')
+    p1c, p1n = n.pending('pend_ingest')
+    return [('available-loses-the-visited-machines', Q([('m', I)], lambda m: k1.av.count(m) == k0.av.count(m) - d(m))),
+            ('ingest-gains-the-visited-machines', Q([('m', I)], lambda m: k1.ing.count(m) == k0.ing.count(m) + d(m))),
+            ('pending-gains-the-visited-machines', Q([('m', I)], lambda m: z3.Select(p1c, m) == z3.Select(p0c, m) + d(m))),
+            ('lengths', z3.And(k1.av.n == k0.av.n - vis.n, k1.ing.n == k0.ing.n + vis.n, p1n == p0n + vis.n))]
+
+
+def _pir_body2(c):
+    """each iteration spawns exactly one ingest allocation for (task, machine) of the pair"""
+    sp = [g for g, p, nd in c.x['spawns'] if g.qual == 'Cluster.allocate_task_to_cluster']
+    if len(sp) != 1:
+        return [('C08-one-allocation-per-ingest-machine', z3.BoolVal(False))]
+    g = sp[0]
+    n = c.n
+    k1 = CV(n.self)
+    t, m = g.args['task'], g.args['machine']
+    return [('C08-one-allocation-per-ingest-machine', c.eng.truth(g.args['ingest'])),
+            ('C01-its-machine-is-in-the-ingest-pool', k1.ing.count(m) > 0),
+            ('C04-its-task-has-not-run', z3.And(k1.run.count(t) == 0, z3.Not(z3.And(k1.fin.has(t), z3.Select(k1.fin.vals, t.t)))))]
+
+
+def _pir_req(c):
+    return [('demand-whole', z3.IsInt(c.o.demand.t)), ('duration-nonneg', c.o.observation.duration.t >= 0)]
+
+
+def _pir_step(c):
+    o, n = c.o, c.n
+    k0, k1 = CV(o.self), CV(n.self)
+    d = o.demand.t
+    out = []
+    if c.x['to'] == 0:
+        out += [('C08-takes-exactly-the-demand-from-the-available-pool', z3.Implies(d >= 0, z3.And(
+            z3.ToReal(k1.av.n) == z3.ToReal(k0.av.n) - d, z3.ToReal(k1.ing.n) == z3.ToReal(k0.ing.n) + d))),
+                ('C01-C08-only-available-machines-go-to-ingest', Q([('m', I)], lambda m: z3.And(
+                    k1.av.count(m) <= k0.av.count(m), k1.ing.count(m) - k0.ing.count(m) == k0.av.count(m) - k1.av.count(m)))),
+                ('reservations-and-occupied-untouched', z3.And(same_list(k1.occ, k0.occ), same_idle(k1.idle, k0.idle)))]
+    return out
+
+
+REG.contract('Cluster.provision_ingest_resources', params={'demand': 'int', 'observation': 'Observation'}, fix={'c': 'default'},
+             locals_types={}, requires=_pir_req,
+             yields={0: lambda c: [('one-step-wait', c.n['_ydelay'].t == 1)]}, step=_pir_step,
+             raises={'RuntimeError': dict(when=lambda c: c.o.demand.t > z3.ToReal(CV(c.o.self).av.n))},
+             modifies=['self._resources.available', 'self._resources.ingest', 'self._ingest.status', 'self._ingest.demand',
+                       'ghost:alloc'] + ['heap:Task.' + f for f in TASK_FIELDS],
+             props=['C08', 'C01', 'C02'])
+REG.loop('Cluster.provision_ingest_resources', 0, inv=_pir_inv0, modifies_locals=['i', 'machine'], modifies=['pairs'],
+         elem_types={'pairs': 'pair:Machine,Task'},
+         props=['C08', 'C01'])
+REG.loop('Cluster.provision_ingest_resources', 2, inv=_pir_inv2, body=_pir_body2,
+         modifies_locals=['pair', 'machine', 'task', 'ret'],
+         modifies=['self._resources.available', 'self._resources.ingest', 'ghost:pend_ingest.cnt', 'ghost:pend_ingest.n'],
+         props=['C08', 'C01', 'C02'])
